@@ -28,34 +28,56 @@ from .kernel import Hang
 
 class SimFuture(cf.Future):
     kernel = None  # set per run by install()
+    executor = None
     blocking_waits = 0
 
-    def result(self, timeout=None):
-        if not self.done():
-            k = SimFuture.kernel
-            if k is None:
-                return super().result(timeout)
-            SimFuture.blocking_waits += 1
+    def _wait(self):
+        """A thread blocks on this future.  If it is a pool worker (we are
+        inside a task or one of its completion callbacks) it keeps its worker
+        occupied: other workers make progress meanwhile, and when every
+        worker is blocked nothing can ever complete -- a deadlock of the
+        bounded pool, reported as Hang."""
+        k = SimFuture.kernel
+        ex = SimFuture.executor
+        SimFuture.blocking_waits += 1
+        in_task = ex is not None and ex.task_depth > 0
+        if in_task:
+            ex.blocked_workers += 1
+            if ex.blocked_workers >= ex.nworkers:
+                ex.blocked_workers -= 1
+                # sticky: stdlib's callback machinery swallows exceptions
+                k.deadlock = True
+                raise Hang("every pool worker (%d) is blocked in "
+                           "Future.result() inside a task" % ex.nworkers)
+        try:
             while not self.done():
                 if not k.step():
                     raise Hang()
+        finally:
+            if in_task:
+                ex.blocked_workers -= 1
+
+    def result(self, timeout=None):
+        if not self.done():
+            if SimFuture.kernel is None:
+                return super().result(timeout)
+            self._wait()
         return super().result(0)
 
     def exception(self, timeout=None):
         if not self.done():
-            k = SimFuture.kernel
-            if k is None:
+            if SimFuture.kernel is None:
                 return super().exception(timeout)
-            SimFuture.blocking_waits += 1
-            while not self.done():
-                if not k.step():
-                    raise Hang()
+            self._wait()
         return super().exception(0)
 
 
 class SimExecutor:
-    def __init__(self, kernel, inline_rate=4):
+    def __init__(self, kernel, inline_rate=4, nworkers=1):
         self.kernel = kernel
+        self.nworkers = nworkers  # bound of the simulated pool
+        self.blocked_workers = 0
+        self.task_depth = 0
         self.submitted = 0
         # 1-in-N chance (per submit) that workers outrun the caller
         self.inline_rate = inline_rate
@@ -71,14 +93,18 @@ class SimExecutor:
         def run():
             if not fut.set_running_or_notify_cancel():
                 return
+            self.task_depth += 1
             try:
-                res = fn(*args, **kwargs)
-            except BaseException as err:  # noqa: B902 - mirrors _WorkItem.run
-                if isinstance(err, (KeyboardInterrupt, SystemExit, Hang)):
-                    raise
-                fut.set_exception(err)
-            else:
-                fut.set_result(res)
+                try:
+                    res = fn(*args, **kwargs)
+                except BaseException as err:  # noqa: B902 - as _WorkItem.run
+                    if isinstance(err, (KeyboardInterrupt, SystemExit, Hang)):
+                        raise
+                    fut.set_exception(err)
+                else:
+                    fut.set_result(res)
+            finally:
+                self.task_depth -= 1
 
         kernel.schedule(kernel.draw_latency("pool-lat"), "pool", run)
 
